@@ -177,7 +177,12 @@ class FakeSocket:
             raise _socket.timeout("timed out")
         if item[0] == "exc":
             self.net.log("recv-exc", self.sid, type(item[1]).__name__)
-            raise item[1]
+            e = item[1]
+            if isinstance(e, Exception):
+                # a fresh instance each time: the stored one must not collect tracebacks (they would keep
+                # the caller's frames, and through them responses and their sockets, alive)
+                e = type(e)(*e.args)
+            raise e
         raise HarnessBug(f"bad rx item {item!r}")
 
     def recv(self, n, flags=0):
